@@ -24,7 +24,7 @@ def case_to_coq(c):
 
 ERR = {1: "EGzipHeader", 2: "EFraming", 3: "EReadMeta", 4: "EDecodeMeta", 5: "EReadState", 6: "EReadSums",
        7: "EUnexpected", 8: "ESumsParse", 9: "EListMissing", 10: "EHashMismatch", 11: "EFileMissing",
-       12: "EGzipTrailer"}
+       12: "EGzipTrailer", 13: "ENotInArchive"}
 
 
 def shard_text(cases):
